@@ -56,6 +56,17 @@ type reply struct {
 	recorded is then the one of the sequential order, which is explored
 	anyway.  The master drops such nodes and counts them. */
 	Unstable bool `json:"unstable,omitempty"`
+	/* Crashed: the worker process died while running this task (set by the
+	master); the text is the panic it printed. */
+	Crashed string `json:"crashed,omitempty"`
+}
+
+func firstLines(s string, n int) string {
+	ls := strings.SplitN(s, "\n", n+1)
+	if len(ls) > n {
+		ls = ls[:n]
+	}
+	return strings.Join(ls, "\n")
 }
 
 // replayRetries is how often a diverging replay is retried.
@@ -255,10 +266,30 @@ func WorkerMain() int {
 	}
 }
 
+// tailBuf keeps the last few KiB written to it (a worker's stderr).
+type tailBuf struct {
+	mu sync.Mutex
+	b  []byte
+}
+
+func (t *tailBuf) Write(p []byte) (int, error) {
+	t.mu.Lock()
+	t.b = append(t.b, p...)
+	if len(t.b) > 8192 {
+		t.b = t.b[len(t.b)-8192:]
+	}
+	t.mu.Unlock()
+	os.Stderr.Write(p)
+	return len(p), nil
+}
+
+func (t *tailBuf) String() string { t.mu.Lock(); defer t.mu.Unlock(); return string(t.b) }
+
 // worker is the master's handle on one worker process.
 type worker struct {
 	bin  string
 	p    *Profile
+	errb *tailBuf
 	cmd  *exec.Cmd
 	in   io.WriteCloser
 	enc  *json.Encoder
@@ -268,7 +299,8 @@ type worker struct {
 
 func (wk *worker) spawn() error {
 	wk.cmd = exec.Command(wk.bin, "worker", "bworld")
-	wk.cmd.Stderr = os.Stderr
+	wk.errb = &tailBuf{}
+	wk.cmd.Stderr = wk.errb
 	wk.cmd.Env = append(os.Environ(), "GOMAXPROCS=1")
 	in, err := wk.cmd.StdinPipe()
 	if nil != err {
@@ -303,7 +335,18 @@ func (wk *worker) do(t task) (reply, error) {
 	}
 	var rp reply
 	if err := wk.dec.Decode(&rp); nil != err {
-		return reply{}, fmt.Errorf("worker read: %w", err)
+		/* The worker died: the program under test crashed the process (a
+		panic in one of its goroutines cannot be caught).  Say what it
+		printed. */
+		wk.cmd.Wait()
+		crash := wk.errb.String()
+		wk.cmd = nil
+		if i := strings.Index(crash, "panic: "); i >= 0 {
+			crash = crash[i:]
+		} else if i := strings.Index(crash, "fatal error: "); i >= 0 {
+			crash = crash[i:]
+		}
+		return reply{Crashed: firstLines(crash, 12)}, nil
 	}
 	if rp.Recycle {
 		wk.stop()
@@ -321,19 +364,21 @@ func (wk *worker) stop() {
 
 // Result is what an exploration covered.
 type Result struct {
-	States       int
-	Transitions  int
-	Execs        int
-	Steps        int
-	MaxDepth     int
-	Exhaustive   bool
-	CapNote      string
-	Viols        []RViol /* Shortest history per (prop, signature). */
-	Samples      []string
-	Confirmed    int /* Histories re-run to confirm determinism. */
-	PerDepth     []int
-	Unstable     int /* Nodes dropped because their prefix would not replay (see reply.Unstable). */
-	UnstableNote string
+	States          int
+	Transitions     int
+	Execs           int
+	Steps           int
+	MaxDepth        int
+	Exhaustive      bool
+	CapNote         string
+	Viols           []RViol /* Shortest history per (prop, signature). */
+	Samples         []string
+	Confirmed       int /* Histories re-run to confirm determinism. */
+	PerDepth        []int
+	Unconfirmed     int /* Violations seen once that reproduced in fewer than 2 of 5 replays: not reported. */
+	UnconfirmedNote string
+	Unstable        int /* Nodes dropped because their prefix would not replay (see reply.Unstable). */
+	UnstableNote    string
 }
 
 // Explore runs the BFS for profile p with nproc worker processes, stopping
@@ -360,6 +405,7 @@ func Explore(p *Profile, nproc int, deadline time.Time) (*Result, error) {
 	res := &Result{Exhaustive: true}
 	seen := map[string]bool{}
 	best := map[string]RViol{}
+	crashed := map[string]bool{} /* Violations that are crashes (confirmed when found). */
 	frontier := []node{{}}
 	/* The initial state. */
 	depth := 0
@@ -399,6 +445,24 @@ func Explore(p *Profile, nproc int, deadline time.Time) (*Result, error) {
 					mu.Unlock()
 					rp, err := wk.do(task{Hist: n.hist, Canons: n.canons})
 					mu.Lock()
+					if nil == err && "" != rp.Crashed {
+						/* Once more on a fresh worker: a crash that
+						repeats is the program's. */
+						rp2, err2 := wk.do(task{Hist: n.hist, Canons: n.canons})
+						if nil == err2 && "" != rp2.Crashed {
+							sig := "program-crashed/" + strings.SplitN(rp.Crashed, "\n", 2)[0]
+							for _, pr := range wk.p.Oracles {
+								k := pr + "|" + sig
+								if b, ok := best[k]; !ok || len(n.hist) < len(b.Hist) {
+									best[k] = RViol{Prop: pr, Sig: sig, What: "the program crashed while (or one event after) " + HistString(n.hist) + ": " + rp.Crashed, Hist: n.hist}
+									crashed[k] = true
+								}
+							}
+							mu.Unlock()
+							continue
+						}
+						rp, err = rp2, err2
+					}
 					if nil == err && rp.Unstable {
 						res.Unstable++
 						res.UnstableNote = rp.Err
@@ -471,27 +535,37 @@ func Explore(p *Profile, nproc int, deadline time.Time) (*Result, error) {
 	sort.Strings(keys)
 	for _, k := range keys {
 		v := best[k]
-		ok := true
-		for i := 0; i < 5 && ok; i++ {
+		if crashed[k] {
+			res.Viols = append(res.Viols, v)
+			continue
+		}
+		hits := 0
+		for i := 0; i < 5; i++ {
 			rp, err := wks[0].do(task{Hist: v.Hist, Confirm: true})
 			if nil != err {
 				return res, err
 			}
-			found := false
 			for _, x := range rp.Viols {
 				if x.Prop == v.Prop && x.Sig == v.Sig {
-					found = true
+					hits++
+					break
 				}
-			}
-			if !found || "" != rp.Err {
-				ok = false
 			}
 		}
 		res.Confirmed++
-		if !ok {
-			return res, fmt.Errorf("harness nondeterminism: violation %s does not reproduce on every replay of %s", k, HistString(v.Hist))
+		switch {
+		case 5 == hits:
+			res.Viols = append(res.Viols, v)
+		case hits >= 2:
+			/* Seen when found and at least twice more on fresh brokers, but
+			not every time: the program itself chooses (a select with
+			several ready cases).  One failing schedule is a violation. */
+			v.What = fmt.Sprintf("[intermittent: %d of 5 replays of the same history show it; the program's own scheduling decides] %s", hits, v.What)
+			res.Viols = append(res.Viols, v)
+		default:
+			res.Unconfirmed++
+			res.UnconfirmedNote = fmt.Sprintf("%s after %s reproduced in %d of 5 replays", k, HistString(v.Hist), hits)
 		}
-		res.Viols = append(res.Viols, v)
 	}
 	return res, nil
 }
